@@ -45,7 +45,14 @@ def cases(tier, seed):
             kw.update(crops=[c for c in gen.usable_crops() if c in common.gdd_crops()])
         elif cls == 3:
             kw.update(methods=(1,), p_gw=0.8)
+        elif cls == 4:   # deepened profile under a table that reaches it
+            kw.update(crops=deep, p_custom=0.0, p_gw=1.0, gw_depths=(0.8, 1.2, 1.6, 2.0, 2.5))
+        elif cls == 5:   # run starts in the fallow period; crop parameters that differ from the fallow filler's
+            kw.update(pre=(5, 40, 90), crops=["Barley", "BarleyGDD", "Quinoa", "Tef", "AlfalfaGDD", "PaddyRice",
+                                              "Wheat", "Maize", "Tomato"], wet=True)
         sp = gen.config(rng, **kw)
+        if cls == 5 and sp["crop"]["name"] in ("Wheat", "Maize", "Tomato"):
+            sp["crop"]["kw"]["Zmin"] = float(gen.pick(rng, [0.2, 0.4]))
         sp["pad_before"] = int(gen.pick(rng, [0, 0, 3, 200]))
         sp["pad_after"] = int(gen.pick(rng, [0, 0, 3, 200]))
         if sp["weather"]["kind"] == "file":
